@@ -266,3 +266,88 @@ func firstWriteFails(rec *vr.Rec, reps int, seed int64) {
 		cc.Close()
 	}
 }
+
+// retransmissionWriteFails: a transient write error hits a RETRANSMISSION (the first copy went out). The exchange is not
+// over: copies that reached the peer can still be acknowledged, later retransmissions are still due. Whatever copy the
+// peer finally acknowledges - one sent before the failed write or one sent after it - the call succeeds, as long as the
+// acknowledgement arrives before the attempts are used up.
+func retransmissionWriteFails(rec *vr.Rec, reps int, seed int64) {
+	rnd := rand.New(rand.NewSource(seed*911 + 5))
+	for rep := 0; rep < reps; rep++ {
+		maxRetr := 2 + rnd.Intn(3)
+		failAt := 1 + rnd.Intn(maxRetr-1) // which retransmission's write fails (1 = the first retransmission)
+		ackAfterMore := rep%2 == 1        // the peer answers only after one more retransmission went out
+		ackTimeout := time.Hour
+		c := map[string]any{"scenario": "a retransmission fails in the write, the peer acknowledges afterwards", "max_retransmit": maxRetr, "failing_retransmission": failAt, "acknowledged_after_a_later_retransmission": ackAfterMore}
+		s := sim.NewMemSession()
+		var writes atomic.Int32
+		s.OnWrite = func([]byte) error {
+			if int(writes.Add(1)) == 1+failAt {
+				return errors.New("injected transient write failure")
+			}
+			return nil
+		}
+		cc := sim.NewUDPConn(s, sim.UDPOpts{Mutate: func(cfg *udpclient.Config) {
+			cfg.TransmissionAcknowledgeTimeout = ackTimeout
+			cfg.TransmissionMaxRetransmit = uint32(maxRetr)
+		}})
+		type res struct {
+			body []byte
+			err  error
+		}
+		done := make(chan res, 1)
+		// (no deadline on the context: housekeeping runs at virtual times hours ahead, and a deadline would end the exchange)
+		ctx, cancel := context.WithCancel(context.Background())
+		lo := time.Now()
+		go func() {
+			m, err := cc.Get(ctx, "/retr-write-fails")
+			if err != nil {
+				done <- res{nil, err}
+				return
+			}
+			b, _ := m.ReadBody()
+			cc.ReleaseMessage(m)
+			done <- res{b, nil}
+		}()
+		if !s.WaitLen(1, 5*time.Second) {
+			rec.Inconclusive("retransmission write fails: first copy not seen")
+			cancel()
+			cc.Close()
+			continue
+		}
+		first, _ := ref.ParseUDP(s.Log()[0].Data)
+		hi := time.Now()
+		// housekeeping: retransmissions 1..failAt (the last of them fails in the write), optionally one more
+		ticks := failAt
+		if ackAfterMore && failAt < maxRetr {
+			ticks++
+		}
+		for k := 1; k <= ticks; k++ {
+			cc.CheckExpirations(hi.Add(time.Duration(k)*ackTimeout + time.Minute))
+		}
+		_ = lo
+		// the peer acknowledges (by message ID) and answers
+		_ = cc.Process(nil, ref.EncodeUDP(ref.Msg{Type: 2, Code: 0x45, MID: first.MID, Token: first.Token, Payload: []byte("hello")}))
+		rec.Eval(fmt.Sprintf("retr-write-fails|%d|%d|%v", maxRetr, failAt, ackAfterMore))
+		rec.Count("retransmission_write_failure_cases", 1)
+		select {
+		case r := <-done:
+			if r.err != nil {
+				rec.Violation("C06/retransmission-write-failure/exchange-dropped", fmt.Sprintf("the write of retransmission %d of %d failed once; the peer then acknowledged and answered (%d copies had been written): the call returned %v", failAt, maxRetr, writes.Load(), r.err), c)
+			} else if string(r.body) != "hello" {
+				rec.Violation("C06/retransmission-write-failure/wrong-response", fmt.Sprintf("%q", r.body), c)
+			} else {
+				rec.Count("calls_completed_after_a_failed_retransmission_write", 1)
+			}
+		case <-time.After(6 * time.Second):
+			rec.Violation("C06/retransmission-write-failure/exchange-dropped", fmt.Sprintf("the write of retransmission %d of %d failed once; the peer then acknowledged and answered (%d copies had been written): the call had not returned 6 s later", failAt, maxRetr, writes.Load()), c)
+			cancel()
+			select {
+			case <-done:
+			case <-time.After(5 * time.Second):
+			}
+		}
+		cancel()
+		cc.Close()
+	}
+}
